@@ -211,11 +211,26 @@ func c26ValidHeaders(thorough bool) []c26Case {
 	for _, n := range tlvs {
 		none("v2-proxy-unspec"+c26TLVTag(n), c26V2(0x21, 0x00, c26TLV(n)))
 	}
-	v2ports := []int{0, 9092, 65535}
+	// equal-sized cases: the most legible values first, so the first counterexample reads well
+	v2ports := []int{9092, 0, 65535}
 	v2v4 := []string{"1.2.3.4", "0.0.0.0", "255.255.255.255"}
-	v2v6 := []string{"::1", "2001:db8::1", "ffff:ffff:ffff:ffff:ffff:ffff:ffff:ffff"}
+	v2v6 := []string{"2001:db8::1", "::1", "ffff:ffff:ffff:ffff:ffff:ffff:ffff:ffff"}
 	if thorough {
-		v2ports, v2v4, v2v6 = ports, v4, append(v6, "::ffff:1.2.3.4")
+		merge := func(first []string, rest []string) []string {
+			out := append([]string{}, first...)
+			for _, r := range rest {
+				dup := false
+				for _, f := range out {
+					dup = dup || f == r
+				}
+				if !dup {
+					out = append(out, r)
+				}
+			}
+			return out
+		}
+		v2v4, v2v6 = merge(v2v4, v4), merge(v2v6, append(v6, "::ffff:1.2.3.4"))
+		v2ports = []int{9092, 0, 1, 80, 255, 256, 32768, 65535}
 	}
 	for _, fam := range []struct {
 		b    byte
